@@ -17,18 +17,22 @@ _cache = {}
 
 
 def _generators():
-    import gen_bivariate
-    gens = [('Bivariate', gen_bivariate.generate)]
-    for name, modname in (('Univariate', 'gen_univariate'), ('Tables', 'gen_tables'),
-                          ('Effects', 'gen_effects'), ('Select', 'gen_select')):
-        if not os.path.exists(os.path.join(os.path.dirname(os.path.abspath(__file__)), modname + '.py')):
+    """Every tools/gen_<name>.py with a `generate(repo) -> (lean_text, report)` function is a generator;
+    its target file is lean/CopVerif/Gen/<TARGET>.lean with TARGET = module attribute `TARGET` or
+    `<Name>` (capitalised file suffix)."""
+    here = os.path.dirname(os.path.abspath(__file__))
+    gens = []
+    for fn in sorted(os.listdir(here)):
+        if not (fn.startswith('gen_') and fn.endswith('.py')):
             continue
+        modname = fn[:-3]
+        default = modname[4:].capitalize()
         try:
             mod = __import__(modname)
-            gens.append((name, mod.generate))
+            gens.append((getattr(mod, 'TARGET', default), mod.generate))
         except Exception:  # a generator that cannot even be imported = its target cannot be translated
             err = traceback.format_exc()[-400:]
-            gens.append((name, (lambda e: (lambda repo: (_ for _ in ()).throw(RuntimeError(e))))(err)))
+            gens.append((default, (lambda e: (lambda repo: (_ for _ in ()).throw(RuntimeError(e))))(err)))
     return gens
 
 
